@@ -33,7 +33,7 @@ RULE = (
 )
 ASSUMPTIONS = ["bodies whose value is needed to choose a branch (dispatch, bind source, case dispatch, Map iterables) count as needed"]
 FLOORS = {"constructions_checked": (1500, 30000), "evaluations_checked": (4000, 80000), "skipped_bodies_confirmed": (1500, 30000),
-          "windows_checked": (2000, 20000), "apply_order_checked": (100, 1000), "definition_time_checks": (60, 600), "namespace_default_runs_at_evaluation": (60, 600)}
+          "windows_checked": (2000, 20000), "apply_order_checked": (100, 1000), "definition_time_checks": (60, 600), "namespace_default_runs_at_evaluation": (60, 600), "late_dispatch_evaluations": (400, 4000)}
 SHARDS_QUICK = 4
 
 
@@ -130,6 +130,55 @@ def definition_time(ctx, r):
     ctx.count("namespace_default_runs_at_evaluation")
     if v != "ns_root" or ran != ["ns_root"]:
         ctx.violation("namespace-default-not-run-at-evaluation", f"first evaluation of a namespace member without its key gave {v!r} and ran {ran} (its default dataset must run now, once)", {})
+
+
+def late_dispatch(ctx, r, case):
+    """A dataset that is used first (explain / keys / validate / evaluate) and only afterwards receives its dispatch
+    (set_dispatch, or adoption as an interface member) and its overloads: an evaluation runs the body of the selected
+    implementation only - never the default's when an overload is selected, never an overload's when it is not."""
+    log = Log()
+
+    def mk(name, key):
+        def f(v=Option(key, 0)):
+            log.hit("body", name)
+            return (name, v)
+
+        f.__name__ = name
+        return f
+
+    first_use = r.choice(["none", "explain", "keys", "validate", "evaluate"])
+    how = r.choice(["set_dispatch", "interface"])
+    kind = r.choice(["memory", "nocache"])
+    d = (dataset.nocache if kind == "nocache" else dataset)(mk("default", "A"))
+    if first_use != "none":
+        getattr(d, first_use)({"A": 1, "D": "x"})
+    if how == "set_dispatch":
+        d.set_dispatch(r.choice(["D", Option("D")]))
+        d.overload("x")(mk("ov_x", "B"))
+        d.register("y", dataset(mk("ov_y", "C")))
+        target = d
+    else:
+        Iface = interface("D")(type("LateIface", (), {"member": d}))
+        Iface.implementation("x")(type("ImplX", (), {"member": dataset(mk("ov_x", "B"))}))
+        Iface.implementation("y")(type("ImplY", (), {"member": dataset(mk("ov_y", "C"))}))
+        target = Iface.member
+    W = {"family": "late-dispatch", "case": case, "shard": ctx.shard, "shards": ctx.shards, "first_use": first_use, "how": how, "cache": kind}
+    for step in range(4):
+        sel = r.choice(["x", "y", "unregistered", None])
+        o = {"A": 10 + step, "B": 20 + step, "C": 30 + step}
+        if sel is not None:
+            o["D"] = sel
+        want = {"x": "ov_x", "y": "ov_y"}.get(sel, "default")
+        mark = log.mark()
+        got = observe(target.evaluate, dict(o))
+        ran = [e[2] for e in log.since(mark, ("body",))]
+        ctx.evaluations += 1
+        ctx.count("late_dispatch_evaluations")
+        if got[0] != "ok" or got[1][1][0] != ("s", want) or ran != [want]:
+            ctx.violation("unselected-implementation-ran", f"dataset first used by {first_use}(), dispatch given later by {how}: with D={sel!r} the selected implementation is {want} "
+                          f"but bodies {ran} ran and the value is {short(got)}", {**W, "options": o})
+            return
+    ctx.nontrivial(spec_hash(["late-dispatch", first_use, how, kind, case]))
 
 
 def evaluation_case(ctx, program, o, tag):
@@ -348,6 +397,7 @@ def run(ctx):
             definition_time(ctx, case_rng(ctx, i))
     for i in range(ctx.n(120, 1200)):
         apply_order(ctx, case_rng(ctx, 777_000 + i))
+        late_dispatch(ctx, case_rng(ctx, ("late", i)), i)
     for i, p in enumerate(directed.programs()):
         if i % ctx.shards != ctx.shard:
             continue
@@ -368,7 +418,10 @@ def run(ctx):
 
 def replay(ctx, rep):
     w = rep["witness"]
-    if "options" in w and "program" in w:
+    if w.get("family") == "late-dispatch":
+        ctx.shard, ctx.shards = w.get("shard", 0), w.get("shards", 1)
+        late_dispatch(ctx, case_rng(ctx, ("late", w["case"])), w["case"])
+    elif "options" in w and "program" in w:
         evaluation_case(ctx, w["program"], w["options"], "replay")
     elif "program" in w:
         construction_case(ctx, w["program"], "replay")
